@@ -243,7 +243,40 @@ class Check:
             self.broken.append("harness %s crashed (exit %d): %s" % (cmd, rc, out.strip()[-300:]))
         return out_path, lines
 
+    def ensure_runner(self, comp):
+        """the model runner is extracted from the current Coq sources: rebuild it when the extraction file, a module it
+        imports (transitively, through make) or its OCaml driver is newer than the binary"""
+        ext = os.path.join(COQ, "Extract", "Extract_%s.v" % comp)
+        binp = os.path.join(VERIF, "ocaml", "modelrun_" + comp)
+        if not os.path.exists(ext):
+            return
+        src = open(ext).read()
+        mods = []
+        for m in re.findall(r"\b([A-Z][A-Za-z0-9_]*\.[A-Z][A-Za-z0-9_]*)\b", " ".join(re.findall(r"From GM Require Import([^\n]*(?:\n[^\n.]*)*)\.", src))):
+            pth = m.replace(".", "/")
+            if os.path.exists(os.path.join(COQ, pth + ".v")):
+                mods.append(pth + ".vo")
+        with Lock("coq"):
+            refresh_coq_project()
+            if mods:
+                rc, out = sh("timeout 3000 make -j16 %s 2>&1 | tail -20" % " ".join(sorted(set(mods))), cwd=COQ)
+                if rc != 0 or "Error" in out:
+                    self.broken.append("coq build of the model runner's inputs failed: " + out.strip()[-300:])
+                    return
+            newest = os.path.getmtime(ext)
+            for m in set(mods):
+                newest = max(newest, os.path.getmtime(os.path.join(COQ, m)))
+            import glob as _glob
+            for f in _glob.glob(os.path.join(VERIF, "ocaml", "drv_%s*.ml" % comp)) + [os.path.join(VERIF, "ocaml", "conv.ml"), os.path.join(VERIF, "ocaml", "modelrun.ml")]:
+                if os.path.exists(f):
+                    newest = max(newest, os.path.getmtime(f))
+            if not os.path.exists(binp) or os.path.getmtime(binp) < newest:
+                rc, out = sh(["sh", os.path.join(VERIF, "ocaml", "build.sh"), comp], timeout=3000)
+                if rc != 0:
+                    self.broken.append("extraction / build of modelrun_%s failed: %s" % (comp, out.strip()[-300:]))
+
     def model(self, comp, cmd, path, timeout=3000):
+        self.ensure_runner(comp)
         rc, out = sh([os.path.join(VERIF, "ocaml", "modelrun_" + comp), cmd, path], timeout=timeout)
         lines = out.splitlines()
         if rc != 0:
